@@ -34,19 +34,19 @@ import numpy as np, tempfile, os, shutil, sys, warnings
 warnings.simplefilter('ignore')
 drf = build.load_pkg()
 kw = %r
-nsub, vlen, got, sub = kw.get('nsub', 1), kw.get('vlen', 1), kw.get('got_len', 1), kw.get('sub')
+nsub, vlen, got, sub, off = kw.get('nsub', 1), kw.get('vlen', 1), kw.get('got_len', 1), kw.get('sub'), kw.get('off', 0)
 d = tempfile.mkdtemp(); os.makedirs(d + '/ch')
 S = 10**10
 w = drf.DigitalRFWriter(d + '/ch', 'i2', 3600, 1000, S, 10, 1, 'u', is_complex=False, num_subchannels=nsub, is_continuous=False, marching_periods=False)
-w.rf_write(np.arange(got * nsub, dtype='i2').reshape(got, nsub)); w.close()
+w.rf_write(np.arange(got * nsub, dtype='i2').reshape(got, nsub), next_sample=off); w.close()
 r = drf.DigitalRFReader(d)
 bad = 0
 try:
     z = r.read_vector_raw(S, vlen, 'ch', sub)
-    ok = vlen <= got and z.shape[0] == vlen and z.shape in ((vlen,), (vlen, nsub))
+    ok = off == 0 and vlen <= got and z.shape[0] == vlen and z.shape in ((vlen,), (vlen, nsub))
     print('returned shape', z.shape, 'OK' if ok else 'WRONG'); bad = not ok
 except IOError as e:
-    print('IOError', e); bad = vlen <= got and vlen >= 1
+    print('IOError', e); bad = off == 0 and vlen <= got and vlen >= 1
 except Exception as e:
     print('unexpected', type(e).__name__, e); bad = 1
 shutil.rmtree(d)
